@@ -10,8 +10,10 @@
     (CfgCheck.v) of the code after fix-1.patch; the specification side (Spec.v: [undef_use],
     [ty_conflict], [reach_nodef], [reach_env], [live_at]) talks about paths only. *)
 From Coq Require Import List Bool Arith Lia.
+From V.C03 Require Import PyAst Builder.
 From V.C09 Require Import Analysis Spec.
-From V.C08 Require Import CfgCheck Spec ProofsBase ProofsCheck ProofsExact ProofsClosed ProofsTop.
+From V.C08 Require Import CfgCheck Spec ProofsBase ProofsCheck ProofsExact ProofsClosed ProofsTop
+  Bridge ProofsBridgeA ProofsBridgeB ProofsBridgeC.
 Import ListNotations.
 
 Notation facts_of g E0 glob s1 s2 := (analyze g (keys E0) glob s1 s2).
@@ -87,6 +89,39 @@ Proof.
   intros H. apply (check_cfg_sound g E0 glob s1 s2 W _ H).
 Qed.
 Print Assumptions check_total.
+
+(** * the link to Python's syntactic control-flow paths (C03's model of CFGBuilder)
+
+    [p] is a function body in C03's PyAst, in the control-flow fragment [cf_stmts]
+    (assignments, augmented assignments, expression statements, return, pass, break, continue,
+    if / elif / else, while; conditions opaque: lift-free, not a literal True / False, possibly
+    under [not]); [build p rn] is C03's executable model of CFGBuilder.build (tied to /repo by
+    C03's own check); [spath_l p items o] says that [items] (simple statements and conditions
+    in execution order, every condition allowed to go both ways, nothing after a jump) is a
+    syntactic path of [p]; [ecfg_of g] reads C03's CFG as a CfgCheck event CFG. *)
+
+(** every syntactic path is a walk along real edges of the built graph, item for item *)
+Theorem syntactic_paths_are_cfg_walks : forall p rn g s items o,
+  cf_stmts p = true -> build p rn = BOk g s -> spath_l p items o ->
+  exists c', walk g (0, 0) items c'.
+Proof. intros p rn g s items o F B X. exact (build_walk p rn g s F B items o X). Qed.
+Print Assumptions syntactic_paths_are_cfg_walks.
+
+(** [undef_exact], syntactic form, direction "violation => rejected": if some syntactic path
+    reaches a read of x ([last]) and no item before it ([pre]) assigns x, and x is not an input
+    but must be in scope, then check_cfg on the built graph raises a not-defined error.
+    ([wf_ecfg] of the built graph is checked by the harness on every CFG; not proved here.) *)
+Theorem syntactic_undef_rejected : forall p rn g s x pre last o E0 glob s1 s2,
+  cf_stmts p = true -> build p rn = BOk g s -> wf_ecfg (ecfg_of g) ->
+  spath_l p (pre ++ [last]) o -> nodef x pre -> reads_first x (ev_item last) ->
+  lookup x E0 = None -> needs_def (facts_of (ecfg_of g) E0 glob s1 s2) x = true ->
+  exists e, check_cfg (ecfg_of g) E0 glob s1 s2 = Rej e /\ is_undef e.
+Proof.
+  intros p rn g s x pre last o E0 glob s1 s2 F B W X N R L Nd.
+  destruct (syntactic_path_to_cfg_path p rn g s x pre last o F B X N R) as (u&Hu&Hr&Hf).
+  apply (undef_complete (ecfg_of g) E0 glob s1 s2 W x u Nd). unfold undef_use. auto.
+Qed.
+Print Assumptions syntactic_undef_rejected.
 
 (** * the hypotheses are satisfiable: three small programs (variables c=0 x=1 y=2; types bool=1 int=2 float=3) *)
 Lemma wf_by_cases : forall g, 0 < length g ->
